@@ -29,7 +29,7 @@ VEC_FUNCS = ["ges_pflegev_beitr_satz_arbeitnehmer", "kindergeld_m", "eink_st_y_s
 
 
 def gen_history(rng, n_ops):
-    hist, slots, sims, edits = [], {}, [], {}
+    hist, slots, sims, edits, fedits = [], {}, [], {}, {}
     for _ in range(n_ops):
         r = rng.random()
         if not slots or r < 0.22:
@@ -39,19 +39,27 @@ def gen_history(rng, n_ops):
             s = len(slots)
             slots[s] = d
             edits[s] = []
+            fedits[s] = []
             hist.append(dict(op="env", slot=s, date=d))
-        elif r < 0.30 and any(int(slots[x][:4]) >= 2015 for x in slots):
+        elif r < 0.26 and any(int(slots[x][:4]) >= 2015 for x in slots):
+            s = int(rng.choice([x for x in slots if int(slots[x][:4]) >= 2015]))
+            fn_ = REFORM_FUNCS[int(rng.integers(0, len(REFORM_FUNCS)))]
+            if fn_ not in fedits[s]:
+                fedits[s].append(fn_)
+                hist.append(dict(op="replace_function_inplace", slot=s, function=fn_))
+        elif r < 0.33 and any(int(slots[x][:4]) >= 2015 for x in slots):
             s = int(rng.choice([x for x in slots if int(slots[x][:4]) >= 2015]))
             g = GROUPS[int(rng.integers(0, len(GROUPS)))]
             edits[s].append(g)
             hist.append(dict(op="reform_inplace", slot=s, group=g))
-        elif r < 0.38:
+        elif r < 0.40:
             s = int(rng.choice(list(slots)))
             k = int(rng.integers(1, 5))
             hist.append(dict(op="vectorize", slot=s, functions=[VEC_FUNCS[i] for i in rng.choice(len(VEC_FUNCS), k, replace=False)]))
         elif r < 0.50 and sims:
             prev = sims[int(rng.integers(0, len(sims)))]  # repeat an earlier call (with the slot's current edits)
-            hist.append(dict(op="sim", slot=prev["slot"], call=dict(prev["call"], edited_groups=list(edits[prev["slot"]]))))
+            hist.append(dict(op="sim", slot=prev["slot"], call=dict(prev["call"], edited_groups=list(edits[prev["slot"]]),
+                                                                      edited_functions=list(fedits[prev["slot"]]))))
         else:
             s = int(rng.choice(list(slots)))
             d = slots[s]
@@ -65,7 +73,7 @@ def gen_history(rng, n_ops):
                         pop=dict(seed=int(rng.integers(0, 4)), n_hh=int(rng.choice([3, 6])), corner=[None, "huge"][int(rng.integers(0, 2))]),
                         targets=tg, rounding=bool(rng.random() < 0.7), debug=bool(rng.random() < 0.2),
                         form=str(rng.choice(["df", "dict", "dict_convert", "df_convert"])),
-                        edited_groups=list(edits[s]))
+                        edited_groups=list(edits[s]), edited_functions=list(fedits[s]))
             op = dict(op="sim", slot=s, call=call)
             hist.append(op)
             sims.append(op)
@@ -215,7 +223,8 @@ def run_item(item):
     for key, lst in by_call.items():
         call = json.loads(key)
         single = _run_fresh([dict(op="env", slot=0, date=call["date"]),
-                             dict(op="sim", slot=0, call=call, fresh_inplace=call.get("edited_groups", []))])[1]
+                             dict(op="sim", slot=0, call=call, fresh_inplace=call.get("edited_groups", []),
+                                  fresh_functions=call.get("edited_functions", []))])[1]
         res["singles"] += 1
         i, dg, exc = lst[-1]
         if (single.get("digest"), single.get("exception")) != (dg, exc):
